@@ -260,6 +260,22 @@ fn vertex_case(run: &mut Runner, kind: &str, case: String, tracks: Vec<Track>) {
     });
 }
 
+/// A circle / helix coaxial with the beam line (centre exactly on the axis), and the same curve written with
+/// a negative radius (r -> -r, phase + pi) - both are representable track values.
+fn special_track<R: Rng>(rng: &mut R, pitch: f64, kind: usize) -> Track {
+    // small loops around the axis pass the 5.3 cm cut on the distance of closest approach, larger ones do not
+    let r: f64 = *[0.03, 0.04, 0.05, 0.12].choose(rng).unwrap();
+    match kind % 3 {
+        0 => Track::verif_new([0.0, 0.0, rng.gen_range(-1.0..1.0), r, rng.gen_range(-PI..PI), pitch], -1.0, 1.0),
+        1 => Track::verif_new([-0.0, 0.0, rng.gen_range(-1.0..1.0), r, 0.0, pitch], 0.5, -0.5),
+        _ => {
+            let t = random_track(rng, pitch);
+            let p = t.verif_params();
+            Track::verif_new([p[0], p[1], p[2], -p[3], p[4] + PI, p[5]], t.t_inner(), t.t_outer())
+        }
+    }
+}
+
 fn random_track<R: Rng>(rng: &mut R, pitch: f64) -> Track {
     let r: f64 = rng.gen_range(0.03..5.0);
     let dir: f64 = rng.gen_range(-PI..PI);
@@ -404,5 +420,21 @@ pub fn run(runner: &mut Runner, descriptors: Option<&str>, seed: u64, thorough: 
             set.shuffle(&mut rng);
         }
         vertex_case(runner, "same-helix", format!("w{ci}"), set);
+    }
+    // coaxial loops (centre on the beam line) and negative radii, for every pitch of the list, alone, in pairs
+    // close in z (so that they seed a vertex) and mixed with ordinary tracks
+    for (pi, &h) in pitches.iter().enumerate() {
+        for kind in 0..3 {
+            let a = special_track(&mut rng, h, kind);
+            let pa = a.verif_params();
+            let b = Track::verif_new([pa[0], pa[1], pa[2] + 0.01, pa[3], pa[4] + 0.3, pa[5]], a.t_inner(), a.t_outer());
+            vertex_case(runner, "special-pair", format!("x{pi}.{kind}"), vec![a, b]);
+            let c = random_track(&mut rng, h);
+            let pc = c.verif_params();
+            let d = Track::verif_new([pc[0], pc[1], pa[2] + 0.005, pc[3], pc[4], pc[5]], c.t_inner(), c.t_outer());
+            let mut set = vec![a, d, random_track(&mut rng, h), special_track(&mut rng, h, kind + 1)];
+            set.rotate_left(pi % 4);
+            vertex_case(runner, "special-mixed", format!("y{pi}.{kind}"), set);
+        }
     }
 }
